@@ -1,5 +1,5 @@
 From Coq Require Import Extraction ExtrOcamlBasic QArith.
-From BCT Require Import Model.Distance Model.Paths.
+From BCT Require Import Model.Distance Model.Paths Model.PathsExt.
 Extraction Language OCaml.
 (* coqc runs with cwd = /verif/coq *)
-Extraction "../ocaml/gen/c12_model.ml" run_floyd run_retrieve run_nav Qred Z.add.
+Extraction "../ocaml/gen/c12_model.ml" run_floyd run_retrieve run_nav run_nav_x Qred Z.add.
